@@ -139,3 +139,26 @@ def register2(R, P):
         ]},
         modifies=["self.manager.ghost_rederived", "self.ghost_rederived"], alloc=True)
     P["_spmgr"] += ["SpaceUpdater._execute_or_restore"]
+
+
+def register3(R, P):
+    # ---- SpaceGraph.max_index (C03): bases are ordered by the `index` attribute of their edges; a new base edge gets
+    #      max_index + 1, i.e. comes AFTER every existing base whatever was removed before --------------------------------
+    R.classes["SpaceGraph"].content = "graph[str]"
+
+    @R.specfun("eindex")
+    def eindex(ev, g, a, b):
+        E = ev.eng
+        ct = E.content_type(g)
+        return SV(E.eidx_of(ev.st, g.v, ct)[a.v][b.v], INT)
+
+    R.contract(M + "::SpaceGraph.max_index",
+        params={"self": "SpaceGraph", "node": "str"}, returns="int",
+        requires=["has_node(self, node)", "all(implies(has_edge(self, a, node), eindex(self, a, node) >= 1) for a in every('str'))"],
+        ensures=[
+            "UPPER-BOUND:: all(implies(has_edge(self, a, node), eindex(self, a, node) <= result) for a in every('str'))",
+            "ATTAINED:: implies(any(has_edge(self, a, node) for a in every('str')), any(has_edge(self, a, node) and eindex(self, a, node) == result for a in every('str')))",
+            "NO-BASE:: implies(not any(has_edge(self, a, node) for a in every('str')), result == 0)",
+        ],
+        modifies=[], alloc=True)
+    P["_spmgr"] += ["SpaceGraph.max_index"]
